@@ -358,8 +358,24 @@ impl<'tcx> Cx<'tcx> {
                             }
                         }
                     }
-                    Const::Ty(_, ct) => {
+                    Const::Ty(t, ct) => {
                         f.push(("tyconst", J::Str(format!("{}", ct))));
+                        if let Some(cv) = ct.try_to_value() {
+                            if let Some(bytes) = cv.try_to_raw_bytes(self.tcx) {
+                                let is_str = matches!(t.kind(), ty::Ref(_, inner, _) if inner.is_str());
+                                if is_str {
+                                    f.push(("str", J::Str(String::from_utf8_lossy(bytes).to_string())));
+                                } else {
+                                    f.push(("bytes", J::Str(hex(bytes))));
+                                }
+                            } else if let Some(leaf) = cv.try_to_leaf() {
+                                if t.is_bool() {
+                                    f.push(("bool", J::Bool(leaf.to_bits_unchecked() != 0)));
+                                } else if t.is_integral() || t.is_char() {
+                                    f.push(("int", J::Str(format!("{}", leaf.to_bits_unchecked()))));
+                                }
+                            }
+                        }
                     }
                 }
                 J::obj(vec![("const", J::obj(f))])
